@@ -73,9 +73,10 @@ func readTimeLayouts() *timeLayouts {
 }
 
 func (tl *timeLayouts) of(kind string) []string {
-	if tl == nil || !tl.ParseKnown {
+	if tl == nil {
 		return nil
 	}
+	// per getter: the layouts of one method may be recovered although another method's are not
 	switch kind {
 	case "dt":
 		return tl.Dt
@@ -400,7 +401,7 @@ func numTimeTextPhase(r *h.Report, d *h.Driver, args []string, rng *rand.Rand) {
 	var tsOps []string
 	// (a) the dense and the strided sweep of written texts (needs the layouts; without them the single values
 	//     below still carry the SPEC monitor)
-	if tl != nil && tl.FormatKnown && tl.ParseKnown && len(tl.Format) == 1 && len(tl.Dt) > 0 && opSafe(tl.Format[0]) && opSafe(strings.Join(tl.Dt, "")) {
+	if tl != nil && tl.FormatKnown && len(tl.Format) == 1 && len(tl.Dt) > 0 && opSafe(tl.Format[0]) && opSafe(strings.Join(tl.Dt, "")) {
 		var jobs []timeJob
 		dense := int64(h.Scale(2, 20)) * 86400 / 2
 		for _, c := range []int64{0, 951782400, 4107542400, 1709164800, -62167219200 + dense, 253402300799 - dense, -2203891200, 1727352000} {
